@@ -436,10 +436,45 @@ func (x *FnExec) siteGuards(kind string, fr *frame, n *node, in ssa.Instruction,
 			x.errf("guard %s %s in %s: %v", kind, g.Target, funcKey(fr.fn), err)
 			continue
 		}
+		g.Hits++
+		if g.Label != "" {
+			if x.labelled == nil {
+				x.labelled = map[string]*labelledGuard{}
+			}
+			lg := x.labelled[g.Label]
+			if lg == nil {
+				lg = &labelledGuard{g: g, kind: kind}
+				x.labelled[g.Label] = lg
+				x.labelOrder = append(x.labelOrder, g.Label)
+			}
+			lg.goals = append(lg.goals, implies(reach, goal))
+			continue
+		}
 		o := x.addObl("guard", kind+":"+g.Target, reach, goal, "guard "+kind+" "+g.Target+": "+g.Src, in.Pos())
 		o.Props = g.Props
-		g.Hits++
 	}
+}
+
+type labelledGuard struct {
+	g     *Guard
+	kind  string
+	goals []string
+}
+
+// flushLabelledGuards: one obligation per `as <label>` guard covering every site met in the function
+func (x *FnExec) flushLabelledGuards() {
+	for _, l := range x.labelOrder {
+		lg := x.labelled[l]
+		goal := "true"
+		if len(lg.goals) == 1 {
+			goal = lg.goals[0]
+		} else if len(lg.goals) > 1 {
+			goal = "(and " + strings.Join(lg.goals, " ") + ")"
+		}
+		o := x.addObl("guard", l, "true", goal, fmt.Sprintf("guard %s %s (all %d sites): %s", lg.kind, lg.g.Target, len(lg.goals), lg.g.Src), token.NoPos)
+		o.Props = lg.g.Props
+	}
+	x.labelled, x.labelOrder = nil, nil
 }
 
 func guardMatchesCallee(target, key string) bool {
